@@ -64,6 +64,23 @@ type Item struct {
 	Name    string `json:"name"` // hex; the name given to Store.Add, relative
 	Tree    *Node  `json:"tree"`
 	ViaLink bool   `json:"viaLink,omitempty"` // the added path is a symbolic link to the file or directory
+	Path    string `json:"path,omitempty"`    // hex; non-empty: the path argument of Add (relative to the working directory, or "/" + that for absolute)
+}
+
+// srcPath is where the item lives below the source working directory, addArg the path argument of Add.
+func (it Item) srcPath() string {
+	if it.Path == "" {
+		return unhx(it.Name)
+	}
+	return strings.TrimPrefix(unhx(it.Path), "/")
+}
+
+func (it Item) addArg(workdir string) string {
+	p := unhx(it.Path)
+	if strings.HasPrefix(p, "/") {
+		return filepath.Join(workdir, p[1:])
+	}
+	return p
 }
 
 type Scenario struct {
@@ -362,7 +379,13 @@ func genScenario(r *common.Rand, idx int) *Scenario {
 			if r.Chance(1, 10) {
 				nm = strings.Repeat("p", 90+r.Intn(100)) + "/" + nm
 			}
-			top := strings.Split(nm, "/")[0]
+			if r.Chance(1, 12) { // names that Add and push clean on their own
+				nm = common.Pick(r, []string{"./", "", ""}) + nm + common.Pick(r, []string{"/", "", "/."})
+				if r.Bool() {
+					nm = strings.Replace(nm, "/", "//", 1)
+				}
+			}
+			top := strings.Split(filepath.ToSlash(filepath.Clean(nm)), "/")[0]
 			if !used[top] {
 				used[top] = true
 				break
@@ -382,7 +405,11 @@ func genScenario(r *common.Rand, idx int) *Scenario {
 			t = genTree(r, big, bad)
 		}
 		trees = append(trees, t)
-		sc.Items = append(sc.Items, Item{Name: hx(nm), Tree: t, ViaLink: r.Chance(1, 8)})
+		it := Item{Name: hx(nm), Tree: t, ViaLink: r.Chance(1, 8)}
+		if r.Chance(1, 6) { // the content lives elsewhere than under its name
+			it.Path = hx(common.Pick(r, []string{"", "/"}) + fmt.Sprintf("_elsewhere/%d/x", i))
+		}
+		sc.Items = append(sc.Items, it)
 	}
 	return sc
 }
@@ -841,9 +868,15 @@ func runScenario(sc *Scenario) {
 	umask := uint32(sc.Umask)
 
 	for _, it := range sc.Items {
-		p := filepath.Join(src, unhx(it.Name))
+		p := filepath.Join(src, it.srcPath())
 		if err := os.MkdirAll(filepath.Dir(p), 0o755); err != nil {
 			panic(err)
+		}
+		if it.Path != "" {
+			run.Count("item-path-differs-from-name")
+		}
+		if n := unhx(it.Name); n != filepath.Clean(n) {
+			run.Count("item-name-unclean")
 		}
 		if err := materialiseItem(p, it, false); err != nil {
 			panic(fmt.Sprintf("materialise: %v", err))
@@ -870,7 +903,7 @@ func runScenario(sc *Scenario) {
 	blobs := map[int][]byte{}
 	for i, it := range sc.Items {
 		name := unhx(it.Name)
-		d, err := s1.Add(ctx, name, "", "")
+		d, err := s1.Add(ctx, name, "", it.addArg(src))
 		if err != nil {
 			fail(scid, "add-failed", fmt.Sprintf("Add(%q): %v", name, err))
 			return
@@ -1000,14 +1033,14 @@ func runScenario(sc *Scenario) {
 				continue
 			}
 			name := unhx(it.Name)
-			p := filepath.Join(src2, name)
+			p := filepath.Join(src2, it.srcPath())
 			os.MkdirAll(filepath.Dir(p), 0o755)
 			if err := materialiseItem(p, it, true); err != nil {
 				panic(err)
 			}
 			s1b, _ := file.New(src2)
 			s1b.TarReproducible = sc.Repro
-			d2, err := s1b.Add(ctx, name, "", "")
+			d2, err := s1b.Add(ctx, name, "", it.addArg(src2))
 			s1b.Close()
 			if err != nil {
 				fail(scid, "add-failed", fmt.Sprintf("second Add(%q): %v", name, err))
